@@ -145,9 +145,21 @@ def r3_exists_before_upload(ctx):
                         ex_assign[t.id] = n.value.value
         falsy = []
         loc_exprs = []
+
+        def _only_backend_answers(name_node):
+            # every definition of the tested local that reaches the test is `await self._exists(..)`: a constant on one arm
+            # (`exists = False` for "small" chunks) is not an answer of the backend
+            from ..cfg import reaching_defs
+
+            rd = reaching_defs(w.node, name_node) or []
+            return bool(rd) and all(d != 'entry' and isinstance(d, ast.Assign) and isinstance(d.value, ast.Await) and isinstance(d.value.value, ast.Call) and (dotted(d.value.value.func) or '') == 'self._exists' for d in rd)
+
         for n in walk_local(w.node):
             if isinstance(n, ast.If):
                 t = n.test
+                tn = t.operand if isinstance(t, ast.UnaryOp) and isinstance(t.op, ast.Not) else t
+                if isinstance(tn, ast.Name) and tn.id in ex_assign and not _only_backend_answers(tn):
+                    continue
                 if isinstance(t, ast.Name) and t.id in ex_assign:
                     falsy += cfg.nodes_of(n, 'false')
                     loc_exprs.append(ex_assign[t.id])
